@@ -363,6 +363,60 @@ fn negatives() -> Vec<(&'static str, String)> {
             }
         }
     }
+    // one method name defined by two inherent impl blocks that overlap (generic + instance, or two blocks
+    // of one instance), next to 0-2 further blocks of the same type that define other names, in every
+    // order of the blocks
+    let blocks: [(&str, &str, &str); 4] = [("G", "impl[T] Bx[T]", "Bx[T]"), ("I", "impl Bx[int32]", "Bx[int32]"), ("S", "impl Bx[string]", "Bx[string]"), ("J", "impl Bx[int32]", "Bx[int32]")];
+    fn perms(items: &[usize]) -> Vec<Vec<usize>> {
+        if items.len() <= 1 {
+            return vec![items.to_vec()];
+        }
+        let mut out = Vec::new();
+        for i in 0..items.len() {
+            let mut rest = items.to_vec();
+            let x = rest.remove(i);
+            for mut p in perms(&rest) {
+                p.insert(0, x);
+                out.push(p);
+            }
+        }
+        out
+    }
+    for (p, q) in [(0usize, 1usize), (0, 2), (1, 3)] {
+        let others: Vec<usize> = (0..4).filter(|k| *k != p && *k != q).collect();
+        for mask in 0..4u32 {
+            let mut chosen = vec![p, q];
+            for (bit, o) in others.iter().enumerate() {
+                if mask & (1 << bit) != 0 {
+                    chosen.push(*o);
+                }
+            }
+            for order in perms(&chosen) {
+                let mut text = String::from("struct Bx[T] { v: T }\n");
+                for k in &order {
+                    let (tag, head, recv) = blocks[*k];
+                    let mname = if *k == p || *k == q { "m".to_string() } else { format!("other{}", tag) };
+                    text.push_str(&format!("{} {{ fn {}(self: {}) -> string {{ \"{}\" }} }}\n", head, mname, recv, tag));
+                }
+                text.push_str("fn main() { let b: Bx[int32] = Bx { v: 1 }; string_println(\"x\") }\n");
+                let name: &'static str = Box::leak(format!("overlapping-inherent-{}{}-order-{}", blocks[p].0, blocks[q].0, order.iter().map(|k| blocks[*k].0).collect::<String>()).into_boxed_str());
+                v.push((name, text));
+            }
+        }
+    }
+    // a type and a trait of one name: `Name::m(x)` and `x.m()` would look `m` up in different places
+    for (kind, decl) in [("struct", "struct Shape { w: int32 }"), ("enum", "enum Shape { Sq(int32) }")] {
+        let mk = if kind == "struct" { "Shape { w: 2 }" } else { "Shape::Sq(2)" };
+        for trait_first in [true, false] {
+            let tr = "trait Shape { fn area(Self) -> int32; }";
+            let (d1, d2) = if trait_first { (tr, decl) } else { (decl, tr) };
+            let name: &'static str = Box::leak(format!("{}-and-trait-of-one-name-{}", kind, if trait_first { "trait-first" } else { "type-first" }).into_boxed_str());
+            v.push((
+                name,
+                format!("{}\n{}\nimpl Shape {{ fn area(self: Shape) -> int32 {{ 1 }} }}\nimpl Shape for Shape {{ fn area(self: Shape) -> int32 {{ 100 }} }}\nfn main() {{ let s = {}; string_println(int32_to_string(s.area())); string_println(int32_to_string(Shape::area(s))) }}\n", d1, d2, mk),
+            ));
+        }
+    }
     v
 }
 
@@ -376,7 +430,7 @@ impl Family for Methods {
         &["C17", "C01", "C02", "C03", "C04"]
     }
     fn rule(&self) -> &'static str {
-        "receiver types {int32,string,bool,S,E2,Box[int32],Box[string],float64,int8,uint64,unit} x 0-2 extra arguments x {inherent, trait with one impl, trait with impls for two receiver types, two traits with the same method name, dyn values through a destructured tuple, a struct field and an enum payload, a literal / constructor expression coerced to dyn directly, a path-form call whose receiver is a call with a dyn-coerced argument, a method with a `dyn Tr` parameter called in every form with a concrete argument that must be coerced, a path-form call whose receiver is a match / if expression with a scrutinee or arm variable of the other implementing type, dyn values read back through array_get/vec_get (may be rejected: inference limitation, tagged)}; each program calls every applicable form (x.m(a), T::m(x,a), Tr::m(x,a), through a T: Tr bound in dot and path form, Tr::m(d,a) on the value coerced to dyn Tr) and prints each result; 12 + 30 negative programs (one method name defined by two inherent impls applying to the same receiver (generic + exact instance, two blocks); dyn coercion without impl, ambiguous method under two bounds/traits, unsatisfied bound, unknown method, standalone method value; the same method name in two traits at every pair of arities 0..2 called in dot form through two bounds and on a concrete receiver with every fitting argument count) that must be rejected with a diagnostic. non-trivial = programs with >= 2 impls; distinct = distinct source text"
+        "receiver types {int32,string,bool,S,E2,Box[int32],Box[string],float64,int8,uint64,unit} x 0-2 extra arguments x {inherent, trait with one impl, trait with impls for two receiver types, two traits with the same method name, dyn values through a destructured tuple, a struct field and an enum payload, a literal / constructor expression coerced to dyn directly, a path-form call whose receiver is a call with a dyn-coerced argument, a method with a `dyn Tr` parameter called in every form with a concrete argument that must be coerced, a path-form call whose receiver is a match / if expression with a scrutinee or arm variable of the other implementing type, dyn values read back through array_get/vec_get (may be rejected: inference limitation, tagged)}; each program calls every applicable form (x.m(a), T::m(x,a), Tr::m(x,a), through a T: Tr bound in dot and path form, Tr::m(d,a) on the value coerced to dyn Tr) and prints each result; 12 + 30 + 114 + 4 negative programs (one method name defined by two inherent impls applying to the same receiver (generic + exact instance, two blocks; every order of 2-4 impl blocks of one generic type in which exactly two overlapping blocks define the name); a type and a trait of one name (rejected, or both call forms print the same); dyn coercion without impl, ambiguous method under two bounds/traits, unsatisfied bound, unknown method, standalone method value; the same method name in two traits at every pair of arities 0..2 called in dot form through two bounds and on a concrete receiver with every fitting argument count) that must be rejected with a diagnostic. non-trivial = programs with >= 2 impls; distinct = distinct source text"
     }
     fn cases(&self, _tier: Tier) -> Box<dyn Iterator<Item = Value> + '_> {
         let mut v = Vec::new();
@@ -413,6 +467,24 @@ impl Family for Methods {
                     let (stage, _) = describe_err(&e);
                     rep.tag(format!("negative:rejected:{}", stage));
                     rep.outcome = Some(format!("{}:rejected", name));
+                }
+                crate::oracle::CompileOutcome::Ok(comp) if name.contains("-of-one-name-") => {
+                    // not ambiguous if both call forms run the same code: the two printed lines must agree
+                    let go = crate::oracle::go_text(&comp).unwrap_or_default();
+                    drop(comp);
+                    match crate::projects::run_go(&go, FUEL) {
+                        Ok(o) => {
+                            let out = lossy(&o.stdout);
+                            let lines: Vec<&str> = out.lines().collect();
+                            if lines.len() == 2 && lines[0] == lines[1] {
+                                rep.tag("negative:accepted-forms-agree");
+                            } else {
+                                rep.tag("negative:accepted-forms-disagree");
+                                rep.findings.push(Finding { property: "C17", class: "forms-disagree".into(), site: format!("negative={}", name), detail: format!("x.m() and Name::m(x) printed {:?}", lines), replay: replay.clone() });
+                            }
+                        }
+                        Err(m) => rep.findings.push(Finding { property: "C17", class: "negative.accepted-invalid-go".into(), site: format!("negative={}", name), detail: m, replay: replay.clone() }),
+                    }
                 }
                 crate::oracle::CompileOutcome::Ok(_) => {
                     rep.tag("negative:accepted");
